@@ -13,6 +13,7 @@ import Shutter.Drive.Signers
 import Shutter.Drive.EpochKG
 import Shutter.Drive.EonPk
 import Shutter.Drive.GnosisSlot
+import Shutter.Drive.ServiceTrigger
 
 open Shutter
 
@@ -26,6 +27,7 @@ def dispatch (st : DState) (line : String) : DState × String :=
     ({ st with app := a }, out)
   | "EPK" :: rest => (st, Drive.EonPk.step rest)
   | "GS" :: rest => (st, Drive.GnosisSlot.step rest)
+  | "ST" :: rest => (st, Drive.ServiceTrigger.step rest)
   | "KG" :: rest => (st, Drive.EpochKG.step rest)
   | "SG" :: rest => (st, Drive.Signers.step rest)
   | "API" :: rest => (st, Drive.Api.step rest)
